@@ -1,5 +1,6 @@
 import XC.Model.C45
 import XC.Model.C45_Keys
+import XC.Model.C44
 import XC.Drv.C46
 namespace XC.C45
 open XC
@@ -65,6 +66,24 @@ def handle (line : String) : String :=
     | none => "bad-op"
     | some d => XC.C46.showDec (XC.C46.decode d)
   | "clrdec" => XC.C46.handle line
+  | "opqser" =>
+    -- OpaquePacket.Serialize = serializeHeader(tag, len) ‖ contents, for the packets parsed before the first error
+    match o.hex? "data" with
+    | none => "bad-op"
+    | some d =>
+      let r := opaqueAll d
+      let ok := if r.2 == .eof || r.2 == .struct then r.1 else r.1.dropLast    -- the packet returned together with an error is not serialised
+      "ser=" ++ toHex ((ok.map (fun p => C44.serializeHeader p.tag p.contents.length ++ p.contents)).flatten)
+  | "osubser" =>
+    match o.hex? "data" with
+    | none => "bad-op"
+    | some d =>
+      let r := opaqueSubs d
+      let encLen : Nat → Bytes := fun n =>
+        if n < 192 then [UInt8.ofNat n]
+        else if n < 16320 then [UInt8.ofNat ((n - 192) / 256 + 192), UInt8.ofNat ((n - 192) % 256)]
+        else 255 :: natToBE 4 n
+      "ser=" ++ toHex ((r.1.map (fun p => encLen (p.2.length + 1) ++ p.1 :: p.2)).flatten)
   | "krtok" =>
     -- key-ring assembly over a token sequence (packets of the two RSA test keys)
     match o.get? "toks" with
